@@ -46,6 +46,7 @@ var (
 	basePort = flag.Int("base_port", 23000, "first port")
 	outPath  = flag.String("out", "", "JSON lines output")
 	modFlag  = flag.Bool("mod", false, "inject a message of death (PANIC command) in every round (property C07)")
+	authFlag = flag.Bool("auth", false, "probe every non-public route of the real binaries without the network password (property C11)")
 	sgFlag   = flag.Bool("safeguard", false, "restart a node against peers with skewed clocks (property C19): it must refuse before raft talks to anybody")
 )
 
@@ -507,6 +508,10 @@ func main() {
 		rep.inconclusive("the three-node network did not become healthy within 60s: " + tailFile(filepath.Join(c.nodes[1].dir, "stderr.txt")))
 		return
 	}
+	if *authFlag {
+		c.authProbe()
+		return
+	}
 	if *sgFlag {
 		for r := 0; r < *rounds; r++ {
 			c.safeguard(*seedFlag*1009+int64(r), pool)
@@ -537,6 +542,67 @@ func main() {
 	for _, n := range c.nodes {
 		m, _ := filepath.Glob(filepath.Join(n.dir, "race*"))
 		rep.Obs("race-log-files", len(m))
+	}
+}
+
+// ---------------------------------------------------------------- C11: non-public routes of the real binary
+
+// authProbe asks every node for everything that is not part of the public client API,
+// including what main() serves besides the API's own dispatcher, without the network
+// password: the answer must be 401 and must not carry anything else.
+func (c *cluster) authProbe() {
+	rep := c.rep
+	type probe struct{ method, path string }
+	probes := []probe{
+		{"GET", "/"}, {"GET", "/status"}, {"GET", "/status/state"}, {"GET", "/status/sessions"}, {"GET", "/status/getmessage"}, {"GET", "/status/irclog"},
+		{"GET", "/irclog?sessionid=1"}, {"GET", "/config"}, {"GET", "/metrics"}, {"GET", "/leader"}, {"GET", "/snapshot"},
+		{"POST", "/config"}, {"POST", "/join"}, {"POST", "/part"}, {"POST", "/quit"}, {"POST", "/kill?session=1"},
+		{"POST", "/raft/AppendEntries"}, {"POST", "/raft/RequestVote"}, {"POST", "/raft/InstallSnapshot"},
+		// what the Go runtime and libraries register on the default serve mux when they are imported
+		{"GET", "/debug/pprof/"}, {"GET", "/debug/pprof/cmdline"}, {"GET", "/debug/pprof/goroutine?debug=1"}, {"GET", "/debug/pprof/heap"},
+		{"GET", "/debug/pprof/symbol"}, {"POST", "/debug/pprof/symbol"}, {"GET", "/debug/pprof/trace?seconds=1"}, {"GET", "/debug/vars"}, {"GET", "/debug/requests"}, {"GET", "/debug/events"},
+		{"GET", "/nonexistent"}, {"PUT", "/config"}, {"DELETE", "/config"},
+	}
+	creds := []struct{ name, user, pw string }{{"none", "", ""}, {"wrong-password", "robustirc", "not-the-password"}, {"empty-password", "robustirc", ""}}
+	for _, n := range c.nodes {
+		burst := 0
+		for pi, p := range probes {
+			// one credential variant per probe (rotating); the node delays every wrong attempt
+			// exponentially while attempts keep coming within a second, so probe in bursts
+			for _, cr := range creds[(pi+n.idx)%len(creds) : (pi+n.idx)%len(creds)+1] {
+				if burst == 8 {
+					time.Sleep(1100 * time.Millisecond)
+					burst = 0
+				}
+				burst++
+				req, _ := http.NewRequest(p.method, "https://"+n.addr()+p.path, strings.NewReader("{}"))
+				if cr.name != "none" {
+					req.SetBasicAuth(cr.user, cr.pw)
+				}
+				resp, err := c.hc.Do(req)
+				if err != nil {
+					rep.Obs("auth.request-errors", 1)
+					continue
+				}
+				body, _ := io.ReadAll(io.LimitReader(resp.Body, 4096))
+				resp.Body.Close()
+				if resp.StatusCode != 401 {
+					rep.violation("C11", "binary:non-public-route-without-password:"+p.method+" "+strings.SplitN(p.path, "?", 2)[0],
+						fmt.Sprintf("%s %s on node %d with credentials %q answered %d (%d bytes: %.60q) instead of 401", p.method, p.path, n.idx, cr.name, resp.StatusCode, len(body), string(body)),
+						map[string]interface{}{"node": n.idx, "credentials": cr.name})
+				}
+				rep.Case(fmt.Sprintf("auth|%s %s|%s|%d", p.method, strings.SplitN(p.path, "?", 2)[0], cr.name, resp.StatusCode), 1)
+				rep.Obs("auth.probes", 1)
+			}
+		}
+		// positive control: the right password opens the status page
+		req, _ := http.NewRequest("GET", "https://"+n.addr()+"/leader", nil)
+		req.SetBasicAuth("robustirc", password)
+		if resp, err := c.hc.Do(req); err != nil || resp.StatusCode == 401 {
+			rep.broken(fmt.Sprintf("positive control: GET /leader with the network password failed on node %d: %v", n.idx, err))
+		} else {
+			resp.Body.Close()
+		}
 	}
 }
 
